@@ -42,6 +42,8 @@ pub const SESSIONS: &[(&str, &str)] = &[
     ("import_module", "m := import \"modp\"\nm.a\nm.f(2)\nn := import \"modp\"\n(m.a, n.a, n.s)\na := 100\nm.f(1)\nk := import \"modq\"\nk.inner.f(a)"),
     ("param_shapes", "c := mut 5\nbump := (x: mut int, k: int) -> int { return x += k }\nbump(c, 2)\nsum := (xs: [int], s: struct{a: int, b: string}) -> int { return std.len(xs) + s.a }\nsum([1, 2], struct{a := 1, b := \"x\"})\neither := (v: int|string|[int]) -> int { if y: int = v { return y } return 0 }\neither(\"q\")\napply := (h: (int) -> int, v: int) -> int { return h(v) }\napply((q: int) -> int { return q * 3 }, 4)\nnothing := (a: int) { }\nnothing(1)\npair := (t: (int, string), u: ()) -> string { return t.1 }\npair((1, \"z\"), ())"),
     ("cell_params", "cell := mut 10\nother := mut 1\nbump := (c: mut int, by: int) -> int { c += by; return *c }\nbump(cell, 5)\nsame := (c: mut int) -> mut int { return c }\nsame(cell) == cell\nswap := (p: mut int, q: mut int) { t := *p; p = *q; q = t }\nswap(cell, other)\n(*cell, *other)\nlog := mut [int] []\nnote := (l: mut [int], v: int) -> int { l += [v]; return std.len(*l) }\nnote(log, 3)\n*log"),
+    ("known_constants_effects", "c := mut 0\nbump := () -> bool { c += 1; return true }\nnope := () -> bool { c += 10; return false }\nflag := *c > 5\nt := *c < 100\nr := bump() && flag\n*c\nr2 := bump() || t\n(*c, r, r2)\nr3 := nope() && flag\nr4 := flag && nope()\nr5 := t || nope()\n(*c, r3, r4, r5)\nk := *c\nincr := () -> int { c += 1; return *c }\nv := incr() + k\nw := k * incr()\nz := [incr(), k, incr()][1]\n(*c, v, w, z)\nq := if flag { incr() } else { k }\ny := match k { i: int => incr() + i, }\n(*c, q, y)\nzero := k - k\nm := incr() * zero\nd := (incr(), zero).1\n(*c, m, d)"),
+    ("known_constants_control", "lim := 3\ni := mut 0\nwhile *i < lim { i += 1 }\n*i\non := *i == lim\nacc := mut [int] []\nfor e in [1, 2, 3, 4]~ { if on { acc += [e] } }\n*acc\noff := !on\nfor e in [1, 2]~ { if off { acc += [e * 100] } else { acc += [e * 7] } }\n*acc\nn := std.len(*acc)\nfill := [0; n]\nstd.len(fill)\nidx := n - 1\n(*acc)[idx]\n(*acc)[0:idx]"),
     ("own_name_param", "f := (f: int, g: int) -> int { return f + g }\nf(1, 2)\ng := (x: int) -> int { g := x + 1; return g }\ng(1)\ng(2)"),
 ];
 
@@ -57,6 +59,9 @@ pub const AGAIN_PROGS: &[&str] = &[
     "it := [4, 5, 6]~ @ (v: int) -> int { return v + 1 }; (it(), it $])",
     "p := [1, 2, 3, 4]~ \\ (v: int) -> bool { return v % 2 == 0 }; p",
     "c := mut 1; g := () -> mut int { return c }; g() += 4; (*c, *g())",
+    "m := import \"modc\"; m.next(); (m.next(), *m.n)",
+    "m := import \"modi\"; m.it(); (m.it(), m.it $])",
+    "f := () -> int { m := import \"modc\"; return m.next() + m.next() }; (f(), f())",
 ];
 
 /// Programs for `scoped`: declarations and reads only (they must leave the interpreter untouched).
@@ -273,6 +278,10 @@ fn sample_args(t: &Type, variant: usize) -> Option<Variable> {
     })
 }
 
+fn lit_of_tuple(elems: &[Variable]) -> Option<String> {
+    Some(format!("({})", elems.iter().map(lit_of).collect::<Option<Vec<_>>>()?.join(", ")))
+}
+
 fn lit_of(v: &Variable) -> Option<String> {
     Some(match v {
         Variable::Int(i) => {
@@ -351,6 +360,8 @@ pub fn run_scenario(sc: &Scenario) -> RunReport {
         let mut sim_os = os::SimOs::new();
         sim_os.nodes.insert("modp".into(), os::Node::File(b"a := 1; f := (x: int) -> int { return x + a }; s := \"t\"".to_vec()));
         sim_os.nodes.insert("modq".into(), os::Node::File(b"inner := import \"modp\"; b := 2".to_vec()));
+        sim_os.nodes.insert("modc".into(), os::Node::File(b"n := mut 0; next := () -> int { n += 1; return *n }".to_vec()));
+        sim_os.nodes.insert("modi".into(), os::Node::File(b"it := [10, 20, 30]~".to_vec()));
         os::install(sim_os);
         let mut names = identifiers(&sc.statements);
         names.extend(["zz_new", "zz_f", "zz_c", "zz_a", "zz_b", "zz_m", "zz_in", "zz_e", "zz_t", "inner"].iter().map(|s| s.to_string()));
@@ -582,6 +593,56 @@ pub fn run_scenario(sc: &Scenario) -> RunReport {
                     let mut empty = good.clone();
                     empty[pos] = (Variable::from(Vec::<Variable>::new()), "[]".to_string());
                     vectors.push(empty);
+                    // containers whose elements are of another type / only partly of the right type
+                    for lit in ["[\"oops\"]", "[1, 2.5]", "[2.5]", "[[1]]", "[1, \"x\"]", "[()]"] {
+                        let scratch = Interpreter::with_stdlib();
+                        if let Ok(Ok(v)) = Code::parse(&scratch, lit).map(|c| c.exec()) {
+                            let mut wrong = good.clone();
+                            wrong[pos] = (v, lit.to_string());
+                            vectors.push(wrong);
+                        }
+                    }
+                }
+                if let Some(pos) = ft.params.iter().position(|p| matches!(p, Type::Tuple(_))) {
+                    if let Variable::Tuple(t) = &good[pos].0 {
+                        // one element of the tuple replaced by a value of another type; one element more
+                        let mut elems: Vec<Variable> = t.iter().cloned().collect();
+                        elems[0] = match &elems[0] {
+                            Variable::Int(_) => Variable::from("oops"),
+                            _ => Variable::Int(99),
+                        };
+                        if let Some(l) = lit_of_tuple(&elems) {
+                            let mut wrong = good.clone();
+                            wrong[pos] = (Variable::Tuple(elems.clone().into()), l);
+                            vectors.push(wrong);
+                        }
+                        let mut longer: Vec<Variable> = t.iter().cloned().collect();
+                        longer.push(Variable::Int(1));
+                        if let Some(l) = lit_of_tuple(&longer) {
+                            let mut wrong = good.clone();
+                            wrong[pos] = (Variable::Tuple(longer.into()), l);
+                            vectors.push(wrong);
+                        }
+                    }
+                }
+                if let Some(pos) = ft.params.iter().position(|p| matches!(p, Type::Struct(_))) {
+                    if let Type::Struct(st) = &ft.params[pos] {
+                        let mut fields: Vec<String> = st.0.iter().filter_map(|(k, t)| literal_of_type(t, 0).map(|l| format!("{k} := {l}"))).collect();
+                        fields.sort();
+                        if fields.len() == st.0.len() {
+                            // an extra field (width subtyping: fine in the language), then a missing one
+                            let extra = format!("struct{{{}, zz_extra := 1}}", fields.join(", "));
+                            let missing = format!("struct{{{}}}", fields[1..].join(", "));
+                            for lit in [extra, missing] {
+                                let scratch = Interpreter::with_stdlib();
+                                if let Ok(Ok(v)) = Code::parse(&scratch, &lit).map(|c| c.exec()) {
+                                    let mut other = good.clone();
+                                    other[pos] = (v, lit.clone());
+                                    vectors.push(other);
+                                }
+                            }
+                        }
+                    }
                 }
                 if ft.params.len() >= 2 {
                     // arguments in the wrong order
